@@ -15,6 +15,10 @@ pub mod c10;
 #[cfg(feature = "full")]
 pub mod c11;
 #[cfg(feature = "full")]
+pub mod c13;
+#[cfg(feature = "full")]
+pub mod c14;
+#[cfg(feature = "full")]
 pub mod c16;
 #[cfg(feature = "full")]
 pub mod c26;
@@ -56,6 +60,8 @@ pub fn all() -> Vec<Property> {
         v.push(Property { id: "C09", level: "exploration", build: c09::build });
         v.push(Property { id: "C10", level: "exploration", build: c10::build });
         v.push(Property { id: "C11", level: "exploration", build: c11::build });
+        v.push(Property { id: "C13", level: "exploration", build: c13::build });
+        v.push(Property { id: "C14", level: "exploration", build: c14::build });
         v.push(Property { id: "C16", level: "exploration", build: c16::build });
         v.push(Property { id: "C26", level: "exploration", build: c26::build });
         v.push(Property { id: "C30", level: "exploration", build: c30::build });
